@@ -59,7 +59,7 @@ func (c Case) String() string {
 	return fmt.Sprintf("A: query %q calls %s; B: query %q calls %s; interleaving %v", kinds[c.Kind].Query, c.Ops, kinds[c.Kind2].Query, c.Ops2, c.Order)
 }
 
-const callTimeout = 5 * time.Second
+const callTimeout = 45 * time.Second
 
 func timed(f func()) bool {
 	done := make(chan struct{})
